@@ -1,2 +1,317 @@
-/* placeholder: replaced by the lock-step child of sim-proc */
-int main(void) { return 0; }
+/* vsim-child: the scripted peer process of sim-proc (C15).
+ *
+ * It is exec'ed by the REAL phosg::Subprocess constructor (so the real dup2/close/exec sequence
+ * runs), then parks in a blocking read on the inherited control socket (fd 200) and performs exactly
+ * one NON-BLOCKING step of its script per 'S' command, replying with what happened. The simulator
+ * therefore decides when the child runs; the operating system never chooses between parent and child.
+ *
+ * Script (argv[1]): actions separated by ';'
+ *   R:<n>            read n bytes from stdin (stops early at EOF)
+ *   RA               read stdin until EOF
+ *   W1:<n>:<chunk>   write n pattern bytes to stdout, at most <chunk> per step
+ *   W2:<n>:<chunk>   same for stderr
+ *   CAT:<chunk>      copy stdin to stdout until EOF
+ *   C0 / C1 / C2     close a standard descriptor
+ *   SLEEP:<usecs>    simulated sleep (the simulator holds the child; nothing real happens)
+ *   IGNTERM          ignore SIGTERM from now on
+ *   EXIT:<code>      _exit(code)
+ *   KILL:<sig>       raise(sig) with default disposition
+ * After the last action the child exits with status 0.
+ *
+ * Output pattern: byte i of stream s is PAT(s,i); the parent recomputes it. Input is summarised by
+ * a byte count and an FNV-1a hash.
+ */
+#include <errno.h>
+#include <fcntl.h>
+#include <signal.h>
+#include <stdint.h>
+#include <stdio.h>
+#include <stdlib.h>
+#include <string.h>
+#include <unistd.h>
+
+#define CTL_FD 200
+#define MAX_ACTIONS 64
+
+enum { A_R, A_RA, A_W1, A_W2, A_CAT, A_C0, A_C1, A_C2, A_SLEEP, A_IGNTERM, A_EXIT, A_KILL };
+enum { ST_RUNNABLE = 0, ST_BLOCKED_READ = 1, ST_BLOCKED_W1 = 2, ST_BLOCKED_W2 = 3, ST_SLEEPING = 4, ST_EXITING = 5 };
+
+struct action {
+  int kind;
+  uint64_t n;
+  uint64_t chunk;
+  uint64_t done;
+};
+
+struct reply {
+  uint8_t state;
+  uint8_t stdin_eof;
+  uint8_t out_closed; /* bit0: stdout gave EPIPE, bit1: stderr gave EPIPE */
+  uint8_t exit_kind; /* 0 none, 1 exit code, 2 signal */
+  int32_t exit_value;
+  uint32_t pc;
+  int32_t last_result; /* bytes moved by this step, or -errno */
+  uint64_t aux; /* sleep duration */
+  uint64_t read_total;
+  uint64_t read_hash;
+  uint64_t w1_total;
+  uint64_t w2_total;
+};
+
+static struct action acts[MAX_ACTIONS];
+static int nacts = 0;
+static int pc = 0;
+static struct reply rp;
+static unsigned char buf[1 << 16];
+static uint64_t cat_have = 0, cat_off = 0;
+
+static unsigned char pat(int s, uint64_t i) { return (unsigned char)((i * 131u + (unsigned)s * 17u + (i >> 8)) & 0xFF); }
+
+static void hash_in(const unsigned char* p, size_t n) {
+  for (size_t i = 0; i < n; i++) {
+    rp.read_hash ^= p[i];
+    rp.read_hash *= 0x100000001B3ULL;
+  }
+  rp.read_total += n;
+}
+
+static void set_nonblock(int fd) {
+  int fl = fcntl(fd, F_GETFL, 0);
+  if (fl >= 0) fcntl(fd, F_SETFL, fl | O_NONBLOCK);
+}
+
+static void parse(const char* s) {
+  char* dup = strdup(s);
+  char* save = NULL;
+  for (char* tok = strtok_r(dup, ";", &save); tok && nacts < MAX_ACTIONS; tok = strtok_r(NULL, ";", &save)) {
+    struct action* a = &acts[nacts];
+    memset(a, 0, sizeof(*a));
+    char name[16] = {0};
+    unsigned long long x = 0, y = 0;
+    int got = sscanf(tok, "%15[A-Z0-9]:%llu:%llu", name, &x, &y);
+    if (got < 1) continue;
+    a->n = x;
+    a->chunk = y ? y : 4096;
+    if (!strcmp(name, "R")) a->kind = A_R;
+    else if (!strcmp(name, "RA")) a->kind = A_RA;
+    else if (!strcmp(name, "W1")) a->kind = A_W1;
+    else if (!strcmp(name, "W2")) a->kind = A_W2;
+    else if (!strcmp(name, "CAT")) {
+      a->kind = A_CAT;
+      a->chunk = x ? x : 4096;
+    } else if (!strcmp(name, "C0")) a->kind = A_C0;
+    else if (!strcmp(name, "C1")) a->kind = A_C1;
+    else if (!strcmp(name, "C2")) a->kind = A_C2;
+    else if (!strcmp(name, "SLEEP")) a->kind = A_SLEEP;
+    else if (!strcmp(name, "IGNTERM")) a->kind = A_IGNTERM;
+    else if (!strcmp(name, "EXIT")) a->kind = A_EXIT;
+    else if (!strcmp(name, "KILL")) a->kind = A_KILL;
+    else continue;
+    if (a->chunk > sizeof(buf)) a->chunk = sizeof(buf);
+    nacts++;
+  }
+  free(dup);
+}
+
+static void send_reply(void) {
+  rp.pc = pc;
+  const char* p = (const char*)&rp;
+  size_t off = 0;
+  while (off < sizeof(rp)) {
+    ssize_t n = write(CTL_FD, p + off, sizeof(rp) - off);
+    if (n <= 0) {
+      if (n < 0 && errno == EINTR) continue;
+      _exit(97);
+    }
+    off += n;
+  }
+}
+
+/* writes up to chunk bytes of pattern to fd (1 or 2); returns 1 if the action is finished */
+static int step_write(struct action* a, int fd) {
+  uint64_t* total = fd == 1 ? &rp.w1_total : &rp.w2_total;
+  if (rp.out_closed & (fd == 1 ? 1 : 2)) return 1;
+  uint64_t left = a->n - a->done;
+  if (!left) return 1;
+  size_t k = left < a->chunk ? left : a->chunk;
+  for (size_t i = 0; i < k; i++) buf[i] = pat(fd, *total + i);
+  ssize_t r = write(fd, buf, k);
+  if (r < 0) {
+    rp.last_result = -errno;
+    if (errno == EAGAIN || errno == EWOULDBLOCK) {
+      rp.state = fd == 1 ? ST_BLOCKED_W1 : ST_BLOCKED_W2;
+      return 0;
+    }
+    if (errno == EINTR) return 0;
+    rp.out_closed |= (fd == 1 ? 1 : 2); /* EPIPE / EBADF: nobody will ever read this */
+    return 1;
+  }
+  rp.last_result = (int32_t)r;
+  a->done += r;
+  *total += r;
+  return a->done == a->n;
+}
+
+static void do_exit_action(int kind, int value) {
+  rp.state = ST_EXITING;
+  rp.exit_kind = kind;
+  rp.exit_value = value;
+  send_reply();
+  if (kind == 2) {
+    signal(value, SIG_DFL);
+    raise(value);
+    _exit(98); /* not reached for fatal signals */
+  }
+  _exit(value);
+}
+
+static void step(void) {
+  rp.state = ST_RUNNABLE;
+  rp.last_result = 0;
+  rp.aux = 0;
+  if (pc >= nacts) do_exit_action(1, 0);
+  struct action* a = &acts[pc];
+  switch (a->kind) {
+    case A_R:
+    case A_RA: {
+      if (rp.stdin_eof) {
+        pc++;
+        break;
+      }
+      size_t k = a->chunk;
+      if (a->kind == A_R) {
+        uint64_t left = a->n - a->done;
+        if (!left) {
+          pc++;
+          break;
+        }
+        if (left < k) k = left;
+      }
+      ssize_t r = read(0, buf, k);
+      if (r < 0) {
+        rp.last_result = -errno;
+        if (errno == EAGAIN || errno == EWOULDBLOCK) rp.state = ST_BLOCKED_READ;
+        else if (errno != EINTR) {
+          rp.stdin_eof = 1; /* EBADF after C0 etc.: nothing more to read */
+          pc++;
+        }
+        break;
+      }
+      rp.last_result = (int32_t)r;
+      if (r == 0) {
+        rp.stdin_eof = 1;
+        pc++;
+        break;
+      }
+      hash_in(buf, r);
+      a->done += r;
+      if (a->kind == A_R && a->done == a->n) pc++;
+      break;
+    }
+    case A_W1:
+      if (step_write(a, 1)) pc++;
+      break;
+    case A_W2:
+      if (step_write(a, 2)) pc++;
+      break;
+    case A_CAT: {
+      if (cat_have > cat_off) {
+        if (rp.out_closed & 1) {
+          cat_off = cat_have;
+          break;
+        }
+        ssize_t r = write(1, buf + cat_off, cat_have - cat_off);
+        if (r < 0) {
+          rp.last_result = -errno;
+          if (errno == EAGAIN || errno == EWOULDBLOCK) rp.state = ST_BLOCKED_W1;
+          else if (errno != EINTR) rp.out_closed |= 1;
+          break;
+        }
+        /* CAT output is the input, not the pattern: counted separately through w1_total */
+        rp.last_result = (int32_t)r;
+        cat_off += r;
+        rp.w1_total += r;
+        break;
+      }
+      if (rp.stdin_eof) {
+        pc++;
+        break;
+      }
+      ssize_t r = read(0, buf, a->chunk);
+      if (r < 0) {
+        rp.last_result = -errno;
+        if (errno == EAGAIN || errno == EWOULDBLOCK) rp.state = ST_BLOCKED_READ;
+        else if (errno != EINTR) {
+          rp.stdin_eof = 1;
+          pc++;
+        }
+        break;
+      }
+      rp.last_result = (int32_t)r;
+      if (r == 0) {
+        rp.stdin_eof = 1;
+        pc++;
+        break;
+      }
+      hash_in(buf, r);
+      cat_have = r;
+      cat_off = 0;
+      break;
+    }
+    case A_C0:
+      close(0);
+      rp.stdin_eof = 1;
+      pc++;
+      break;
+    case A_C1:
+      close(1);
+      rp.out_closed |= 1;
+      pc++;
+      break;
+    case A_C2:
+      close(2);
+      rp.out_closed |= 2;
+      pc++;
+      break;
+    case A_SLEEP:
+      rp.state = ST_SLEEPING;
+      rp.aux = a->n;
+      pc++;
+      break;
+    case A_IGNTERM:
+      signal(SIGTERM, SIG_IGN);
+      pc++;
+      break;
+    case A_EXIT:
+      do_exit_action(1, (int)(a->n & 0xFF));
+      break;
+    case A_KILL:
+      do_exit_action(2, (int)a->n);
+      break;
+  }
+}
+
+int main(int argc, char** argv) {
+  signal(SIGPIPE, SIG_IGN);
+  memset(&rp, 0, sizeof(rp));
+  rp.read_hash = 0xCBF29CE484222325ULL;
+  if (argc < 2) return 96;
+  parse(argv[1]);
+  set_nonblock(0);
+  set_nonblock(1);
+  set_nonblock(2);
+  /* hello: the exec is complete, descriptors are in place */
+  send_reply();
+  for (;;) {
+    char cmd;
+    ssize_t n = read(CTL_FD, &cmd, 1);
+    if (n < 0 && errno == EINTR) continue;
+    if (n <= 0) _exit(95); /* simulator went away */
+    if (cmd == 'S') {
+      step();
+      send_reply();
+    } else if (cmd == 'Q') {
+      _exit(94);
+    }
+  }
+}
